@@ -108,3 +108,43 @@ func VerifC19_LabelsSurviveBufferReuse() {
 //
 //verif:reach checked
 func VerifC12_MetricLabelsOutliveTheRecord() { VerifC19_LabelsSurviveBufferReuse() }
+
+// VerifC19_SharedLabelCounters: two registrants of custom counters on one
+// counter host (e.g. two transforms of a pipeline, or a transform and the
+// parser's own "overflow" counter) with equal or different labels, each
+// counting a symbolic number of records of symbolic length: after
+// UpdateMetrics the labelled counters hold exactly what was counted per label.
+//
+//verif:reach same-label different-labels
+func VerifC19_SharedLabelCounters() {
+	host := newLogCustomCounterHost(fakes.NewMetrics())
+	labels := []string{"redacted", "overflow"}
+	l1 := labels[sym.Choice("label1", 2)]
+	l2 := labels[sym.Choice("label2", 2)]
+	c1 := host.RegisterCustomCounter(l1)
+	c2 := host.RegisterCustomCounter(l2)
+	want := map[string][2]uint64{}
+	count := func(f func(int), label string, name string) {
+		n := sym.Choice(name, 3)
+		for i := 0; i < n; i++ {
+			length := sym.IntRange(name+"Len", 0, 1000)
+			f(length)
+			w := want[label]
+			want[label] = [2]uint64{w[0] + 1, w[1] + uint64(length)}
+		}
+	}
+	count(c1, l1, "first")
+	count(c2, l2, "second")
+	host.UpdateMetrics()
+	count(c1, l1, "firstAgain")
+	host.UpdateMetrics()
+	for _, l := range labels {
+		sym.Assert(host.countMetricVec.WithLabelValues(l).Get() == want[l][0], "labelled record count = records counted under that label by every registrant")
+		sym.Assert(host.lengthMetricVec.WithLabelValues(l).Get() == want[l][1], "labelled byte count = bytes counted under that label by every registrant")
+	}
+	if l1 == l2 {
+		sym.Reach("same-label")
+	} else {
+		sym.Reach("different-labels")
+	}
+}
